@@ -126,6 +126,15 @@ N_TLS = {"stem": "thread_list_stream", "filter": "", "tiers": Q, "tests": {
 }}
 N_C09 = {"name": "c09_dest", "tiers": Q, "tests": {
     "bprime_destination_equals_image_for_every_short_history": H("B'", "DirSection (real std::io::Cursor)", "every sequence of <= 4 ops from 5 kinds x 3 start offsets x 3 prefills")}}
+N_LIVE_PREFIX = {"name": "c10_live_prefix", "tiers": Q, "tests": {
+    "every_prefix_of_a_real_dump_is_consistent": H("B'", "MinidumpWriter::dump on a live child into a destination that snapshots after every write and injects a write failure at every position", "one child, pre-filled 32-byte file, start 9, every write index")}}
+N_LIVE_NOATTACH = {"name": "c10_live_prefix", "tiers": Q, "tests": {
+    "dump_succeeds_when_no_thread_can_be_attached": H("B'", "MinidumpWriter::dump on a child whose threads are all already traced by another process", "one child")}}
+N_C06_LIVE = {"name": "c06_limit", "tiers": Q, "tests": {
+    "limited_stacks_contain_the_stack_pointer": H("B'", "MinidumpWriter::dump with a size limit on a live child with > 20 threads", "one child, 64 KiB limit"),
+    "crash_context_thread_is_never_shortened": H("B'", "MinidumpWriter::dump with a size limit and a crash context for the thread at list position 25", "one 30-thread child")}}
+N_C07_LIVE = {"name": "c07_ip_window", "tiers": Q, "tests": {
+    "ip_window_is_clipped_to_the_mapping_that_contains_ip": H("B'", "MinidumpWriter::dump with crash contexts whose ip is inside / on the last byte / on the first byte of adjacent mappings / unmapped", "5 instruction pointers on one live child")}}
 TWINS_STACK = {
     "fill_thread_stack": ["native:thread_list_stream::bprime_stack_region_for_every_sp_offset", "native:thread_list_stream::c20_ip_at_end_of_principal_mapping_is_outside"],
     "get_stack_info": ["native:ptrace_dumper::c02_get_stack_info_top_of_address_space"],
@@ -176,7 +185,7 @@ PLAN["C09"] = {
                    "generic in the Write+Seek destination (std::io semantics assumed as in verus/prelude/std_io.rs)",
     "verus": [{"unit": "dir_section", "functions": ["new", "position", "dump_dir_entry", "write_to_file"], "tags": ["C09"], "tiers": Q}],
     "kani": [],
-    "native_files": [N_C09],
+    "native_files": [N_C09, N_LIVE_PREFIX],
     "twins": TWINS_DIR,
     "trusted": ["verus/prelude/std_io.rs: model of std::io::{Write,Seek} on a seekable byte sink (cross-checked against std::io::Cursor by the native twin)",
                 "callers keep the invariant between calls (the image only grows, or is patched beyond the flushed prefix): generate_dump itself is outside Verus's reach"],
@@ -193,7 +202,7 @@ PLAN["C10"] = {
     "kani": [{"tiers": T, "jobs": 2, "timeout": 5400, "mem_gb": 24, "harnesses": K_GENERATE}],
     "twins": TWINS_DIR,
     "native_files": [{"name": "c10_prefix", "tiers": Q, "tests": {
-        "every_prefix_is_consistent": H("B'", "DirSection (real std::io::Cursor destination, snapshot after every write)", "start offsets 0 and 7, 2 streams of 40 bytes")}}],
+        "every_prefix_is_consistent": H("B'", "DirSection (real std::io::Cursor destination, snapshot after every write)", "start offsets 0 and 7, 2 streams of 40 bytes")}}, N_LIVE_PREFIX],
     "trusted": ["verus/prelude/std_io.rs: model of std::io::{Write,Seek}; a crash inside one write_all call is outside the statement",
                 "that a stream's entry references only bytes below the image length at emission time is C01(b)"],
     "samples": ["dump_dir_entry requires last_position_written_to_file == |image|  [C10]"],
@@ -209,6 +218,7 @@ PLAN["C06"] = {
     "kani": [{"tiers": Q, "jobs": 4, "timeout": 900, "harnesses": K_FIND},
              {"tiers": T, "jobs": 3, "timeout": 3600, "mem_gb": 24, "harnesses": dict(K_TLS_CAP, **K_TLS)}],
     "native": [N_TLS],
+    "native_files": [N_C06_LIVE],
     "twins": TWINS_STACK,
     "trusted": ["copy_from_process satisfies copy_ok (C17 decides it for the ptrace strategy; assumed for process_vm_readv and /proc/pid/mem)",
                 "find_mapping / may_be_stack contracts are assumed in Verus (iterator adapter, bitflags operator) and checked by Kani (2 mappings)"],
@@ -226,6 +236,7 @@ PLAN["C07"] = {
                  "vk_app_memory_two_regions": H("B", "app_memory::write", "2 requests, symbolic addresses, lengths 1..=3")}},
              {"tiers": T, "jobs": 2, "timeout": 3600, "mem_gb": 24, "harnesses": {"vk_tls_crash_context_thread": K_TLS["vk_tls_crash_context_thread"]}}],
     "native": [N_TLS],
+    "native_files": [N_C07_LIVE],
     "twins": TWINS_STACK,
     "trusted": ["copy_from_process satisfies copy_ok (see C17)",
                 "alloc_from_array contract assumed in Verus, checked by Kani (C16 group)"],
@@ -270,6 +281,7 @@ PLAN["C04"] = {
              {"tiers": T, "jobs": 3, "timeout": 5400, "mem_gb": 20, "harnesses": dict(K_TLS, **dict(K_DUMP, **K_GENERATE))}],
     "native": [{"stem": "ptrace_dumper", "filter": "bprime_enumerate", "tiers": Q, "tests": {
         "bprime_enumerate_threads_of_this_process": H("B'", "PtraceDumper::enumerate_threads (this process as the target)", "6 helper threads + the runner's own, compared with /proc/self/task")}}],
+    "native_files": [N_LIVE_NOATTACH],
     "trusted": ["that a ptrace-stopped thread does not run, and what /proc/<pid>/task lists, are the kernel's contract (L5)"],
     "samples": ["vk_thread_fill_cpu_context_gprs: out.rax == regs.rax ... out.cs == regs.cs as u16, dr0..dr7, rip"],
 }
@@ -398,6 +410,7 @@ PLAN["C11"] = {
         "bprime_soft_error_stream_is_wellformed_json": H("B'", "write_soft_errors", "every subset of 6 representative soft errors (64)")}},
                {"stem": "systeminfo_stream", "filter": "c11", "tiers": Q, "tests": {
         "c11_cpu_information_failure_is_soft": H("B'", "systeminfo_stream::write with the CpuInfoFileOpen fail point", "one failure")}}],
+    "native_files": [N_LIVE_NOATTACH],
     "trusted": ["serde_json / error-graph serialisation beyond the 64 enumerated lists",
                 "PtraceDumper::init: the harness vk_init_best_effort_steps (kani/proofs/ptrace_dumper.rs) exhausts 30 GB in CBMC (error-list drop glue) and is not part of any tier: init's four best-effort steps are NOT decided"],
     "samples": ["vk_generate_dump_control_flow: SOFT_ERRORS_SEEN == FAILED_BEST_EFFORT && ZERO_ENTRIES >= FAILED_BEST_EFFORT"],
